@@ -1525,6 +1525,12 @@ def c10_search(ctx, failing, corr, broken):
             if len(out) >= 5:
                 break
     out += c10_rebuild_search(ctx, rng, broken)
+    if failing.get('C17access'):
+        # typed component accessors: reuse the accessor search of C17 on the failing rows
+        for v in (c17_search(ctx, {'C17access': failing['C17access']}, None, True) or [])[:3]:
+            v = dict(v)
+            v['kind'] = 'c10-accessor'
+            out.append(v)
     return out
 
 
@@ -2447,7 +2453,8 @@ SPECS = {
     'C10': {
         'id': 'C10', 'level': 'proof',
         'lean_targets': ['PhQVerif.Audit.C10'],
-        'checkers': [('C10dir', 'quantityEntries'), ('C10mag', 'quantityEntries'), ('C10scale', 'quantityEntries')],
+        'checkers': [('C10dir', 'quantityEntries'), ('C10mag', 'quantityEntries'), ('C10scale', 'quantityEntries'),
+                     ('C17access', 'quantityEntries')],
         'correspond': quantity_corr(lambda e: produces_direction(e) or e['meta'].get('name') == 'Magnitude', 10, 6, 200),
         'search': c10_search,
         'always_search': True,
